@@ -30,6 +30,15 @@ def run(tier, seed):
     rows, g = gen.bfs(SPEC, "ReplStore", "ReplStoreScript.cfg", {}, timeout=3000)
     stimuli += to_stimuli(rows, 20)
     gens.append(g)
+    # the histories with a clear that the process survives, once more with the clear made the way the function (clear-history)
+    # makes it (through the stash embedded in the history object)
+    extra = []
+    for st in stimuli:
+        ops = st["ops"]
+        idx = [i for i, o in enumerate(ops) if o["op"] == "clear" and not (i + 1 < len(ops) and ops[i + 1]["op"] == "crash")]
+        if idx and any(o["op"] == "add" for o in ops[idx[0] + 1:]):
+            extra.append(dict(st, ops=[dict(o, lisp=True) if i in idx else o for i, o in enumerate(ops)]))
+    stimuli += extra
     # probes for the recorded findings about forms the history file cannot represent
     findings = {f["feature"]: f for f in common.load_findings(PROP) if f.get("status") == "open"}
     probes = {"tab-inside-form": 101, "blanks-around-form": 102}
@@ -56,11 +65,37 @@ def run(tier, seed):
     # the replay must have died where the model says the process dies: an operation that is followed by a crash record and ran to
     # its end means that the implementation has no such step any more - the binding between model and code is broken (exit 2)
     ops_of = {s["id"]: s["ops"] for s in stimuli}
+    unreached, infra = {}, None
     for e in events:
         ops = ops_of[e["t"]]
         if e["op"] in ("add", "clear") and e["i"] + 1 < len(ops) and ops[e["i"] + 1]["op"] == "crash" and not e["crashed"]:
-            raise common.Infra(f"the crash point {ops[e['i'] + 1]['point']} (occurrence {ops[e['i'] + 1]['nth']}) of the model was not reached by "
-                               f"{e['op']} in history {json.dumps(ops)[:400]}: the implementation does not perform that file-system step")
+            unreached.setdefault(e["t"], e["i"])
+    if unreached:
+        # Either the implementation has no such file-system step any more (the binding between model and code is broken: exit 2)
+        # or it holds other forms than the reference at that moment (fewer forms to write): decided by the implementation's
+        # own behaviour - the same history up to that operation, followed by a clean restart, judged by the acceptor
+        by0 = {s["id"]: s for s in stimuli}
+        again = []
+        for t, i in list(unreached.items())[:200]:
+            st = dict(by0[t], ops=by0[t]["ops"][:i + 1] + [{"op": "restart", "f": 0, "a": 0, "b": 0}], id=len(stimuli) + len(again) + 1, of=t)
+            again.append(st)
+        ev2 = pipeline.drive(vdrive, "c20", again, chunk=300)
+        res2 = pipeline.accept(SPEC, "ReplStoreTrace", "ReplStoreTrace.cfg", ev2, timeout=3000)
+        if not res2["bad"]:
+            t, i = next(iter(unreached.items()))
+            ops = ops_of[t]
+            # (raised only if the other histories show no violation either: a defect of loading shows in the clean restarts)
+            infra = common.Infra(f"the crash point {ops[i + 1]['point']} (occurrence {ops[i + 1]['nth']}) of the model was not reached by "
+                               f"{ops[i]['op']} in history {json.dumps(ops)[:400]}: the implementation does not perform that file-system step")
+        ag = {s["id"]: s for s in again}
+        for b in res2["bad"]:
+            st = ag[b["t"]]
+            rep.violation({"property": PROP, "stimulus": {k: st[k] for k in st if k != "of"}, "rejected_event": b["event"],
+                           "why": {k: b[k] for k in ("op", "want", "got", "i")}},
+                          f"{st.get('kind', 'history')} limit {st['limit']} {json.dumps([[o['op'], o.get('f'), o.get('a'), o.get('b')] for o in st['ops']])}: "
+                          f"step {b['i']} {b['op']} loaded {b['got']} entries, the reference has {b['want']} (the process holds other forms than "
+                          "the reference: a file-system step the model dies at was never reached)")
+        events = [e for e in events if e["t"] not in unreached]
     res = pipeline.accept(SPEC, "ReplStoreTrace", "ReplStoreTrace.cfg", events, timeout=3000)
     by_id = {s["id"]: s for s in stimuli}
     hit_stash = False
@@ -78,6 +113,8 @@ def run(tier, seed):
                       f"step {b['i']} {b['op']} loaded {b['got']} entries, the reference has {b['want']}")
     if hit_stash:
         rep.known.append(findings["stash-torn-add"]["summary"])
+    if infra is not None and not rep.violations:
+        raise infra
     # ---- settings: every session a process of its own --------------------------------------------------------
     rows, gs = gen.bfs(SPEC, "ReplSettings", "ReplSettings.cfg", {"MaxOps": 7 if quick else 9}, timeout=3000)
     cfg_stim = [{"id": i + 1, "ops": r["hist"]} for i, r in enumerate(rows)]
